@@ -8,7 +8,9 @@ to the input and the last column is non-oscillatory.
 import itertools
 import numpy as np
 
-from ..engine.explore import Outcome
+from ..engine.explore import Outcome, Holder
+
+_holder = Holder()
 from . import signals
 
 PID = 'C01'
@@ -214,6 +216,8 @@ def check_case(case):
         try:
             xin = x.copy() if case[0] != 'fa4-int' else x.astype(np.int64 if case[2] % 2 == 0 else np.int16)
             imf = sift(xin, **o)
+            for m_ in _holder.swap(imf, 'sift ' + tag):
+                viols.append(('earlier-result-changed', m_))
         except EMDSiftCovergeError:
             return Outcome(cls='converge-error', transitions=max(len(_state['paths']), 1), nontrivial=True)
         except Exception as e:
